@@ -24,6 +24,7 @@ func init() {
 			{Name: "X-Forwarded-Host from the target", File: "proxy/http_headers.go", Old: "r.Header.Set(\"X-Forwarded-Host\", r.Host)", New: "r.Header.Set(\"X-Forwarded-Host\", r.URL.Host)", Expect: "C08.A2"},
 			{Name: "Host rewrite before addHeaders again", File: "proxy/http_proxy.go", Old: "\tif err := addHeaders(r, p.Config, t.StripPath); err != nil {", New: "\tif t.Host != \"\" && t.Host != \"dst\" {\n\t\tr.Host = t.Host\n\t}\n\tif err := addHeaders(r, p.Config, t.StripPath); err != nil {", Expect: "C08.O1"},
 			{Name: "addHeaders tests only the lower-case spelling", File: "proxy/http_headers.go", Old: "\tws := isWebsocketUpgrade(r)\n\tif ws {\n\t\tclientIP := remoteIP", New: "\tws := r.Header.Get(\"Upgrade\") == \"websocket\"\n\tif ws {\n\t\tclientIP := remoteIP", Expect: "C08.X1"},
+			{Name: "websocket X-Forwarded-For decided by the derived scheme", File: "proxy/http_headers.go", Old: "\tws := isWebsocketUpgrade(r)\n\tif ws {\n\t\tclientIP := remoteIP", New: "\tws := scheme(r) == \"ws\" || scheme(r) == \"wss\"\n\tif ws {\n\t\tclientIP := remoteIP", Expect: "C08.X3"},
 			{Name: "peer not last in X-Forwarded-For", File: "proxy/http_headers.go", Old: "clientIP = strings.Join(prior, \", \") + \", \" + clientIP", New: "clientIP = clientIP + \", \" + strings.Join(prior, \", \")", Expect: "C08.X2"},
 			{Name: "HSTS without the TLS test", File: "proxy/http_headers.go", Old: "if r.TLS != nil && cfg.STSHeader.MaxAge > 0 {", New: "if cfg.STSHeader.MaxAge > 0 {", Expect: "C08.S1"},
 			{Name: "request id kept when the client sent one", File: "proxy/http_proxy.go", Old: "\tif p.Config.RequestID != \"\" {", New: "\tif p.Config.RequestID != \"\" && r.Header.Get(p.Config.RequestID) == \"\" {", Expect: "C08.R1"},
@@ -302,6 +303,8 @@ func runC08(c *Ctx) {
 		}
 	}
 	c.check("C08.X1", "package proxy|ServeHTTP, addHeaders and scheme all decide on the Upgrade header", serve.Pos(), usesWS == 3, "the tunnel decision, the X-Forwarded-For handling and the scheme detection must all look at the Upgrade header")
+
+	runC08X3(c)
 
 	// ---- X2
 	nXFF := 0
